@@ -131,7 +131,10 @@ def check_roundtrip(ctx, case):
         ctx.violation('roundtrip-shape', 'round trip changed the shape %s -> %s' % (prof.shape, back.shape), case)
         return
     want = np.concatenate([prof[1:2], (prof[2:] + prof[1:-1]) / 2, prof[-1:]])
-    err = np.abs(back - want).max() / np.abs(prof).max()
+    floor = 64 * np.finfo(float).eps * max(np.abs(ph).max(), 1.0) * sr / (2 * np.pi)   # rounding of the accumulated phase
+    err = max(np.abs(back - want).max() - floor, 0.0) / max(np.abs(prof).max(), 1e-300)
+    if np.abs(prof).max() > sr / 2:
+        ctx.count('roundtrips_beyond_nyquist')
     ctx.maxi('max_roundtrip_err', err)
     if err > 1e-9:
         ctx.violation('roundtrip', 'phase_from_freq -> freq_from_phase does not reproduce the two-sample average of the profile '
@@ -141,7 +144,7 @@ def check_roundtrip(ctx, case):
         ctx.violation('roundtrip-start', 'phase does not start at phase_start plus the first increment', case)
         return
     if case.get('const'):
-        if np.abs(back - prof).max() > 1e-9 * np.abs(prof).max():
+        if np.abs(back - prof).max() > 1e-9 * max(np.abs(prof).max(), 1e-300) + floor:
             ctx.violation('roundtrip-const', 'constant profile not reproduced exactly', case)
         else:
             ctx.count('roundtrips_const')
@@ -171,7 +174,8 @@ KINDS = {'sin': check_sinusoid, 'generic': check_generic, 'rt': check_roundtrip,
 
 def gen_case(rng):
     r = rng.random()
-    c = float(np.ldexp(1.0, int(rng.integers(-8, 9))))
+    # scale factors 2^k: mostly |k| <= 8, sometimes far out (no under/overflow: amplitudes stay within 1e-14 .. 1e14)
+    c = float(np.ldexp(1.0, int(rng.integers(-8, 9)) if rng.random() < .75 else int(rng.integers(-40, 41))))
     if r < .55:
         sr = float(gens.pick(rng, [1, 100, 512, 2000]))
         n = int(gens.pick(rng, [512, 1000, 4000]))
@@ -204,6 +208,13 @@ def gen_case(rng):
         else:
             u = np.linspace(0, rng.uniform(2, 9), n)
             prof = sr * (.1 + .05 * np.sin(u + rng.uniform(0, 6)) + .02 * np.cos(2.3 * u)) + rng.uniform(0, .02) * sr
+        r2 = rng.random()
+        if r2 < .15:
+            prof = prof * float(gens.pick(rng, [4, 7.5]))      # "arbitrary" profiles: beyond half the sample rate
+        elif r2 < .25:
+            prof = -prof                                       # negative frequencies
+        elif r2 < .3 and not const:
+            prof = prof - prof.mean()                          # sign-changing profile
         if rng.random() < .3:
             prof = np.tile(prof[:, None], (1, 2)) * np.array([1, 1.5])
         return {'kind': 'rt', 'profile': prof, 'sr': sr, 'phase_start': float(gens.pick(rng, [-np.pi, 0.0, 1.0])), 'const': bool(const) and prof.ndim == 1}
